@@ -33,6 +33,9 @@ def scenarios(tier):
   out.append(('mux behind a singleton pool: deadline while the pool is connecting (slow connect)',
               {'stack': 'mux', 'mux_pool': 'singleton', 'endpoints': 1, 'ops': [('call', 's0', 0.0525), ('call', 's1', 0.2525)], 'open_timeout': 0,
                'faults': ['stall', 'drop'], 'connect_delay': 0.1025, 'timeout': 0.5025}))
+  out.append(('mux, a 70 KB request and a deadline that may fire between two ready callbacks',
+              {'stack': 'mux', 'endpoints': 1, 'ops': [('call', 'B0', 0.0525, 'big'), ('call', 'B1', 0.1025)], 'faults': ['block'],
+               'timeout': 0.5025, 'max_preempt': 1, '_bound': 2}))
   # tags beyond 16 bits (tag counter jumps as if the tags in between were held by requests that were never answered)
   out.append(('mux on the wire with a tag above 65535: replies late or lost',
               {'stack': 'mux', 'endpoints': 1, 'ops': [('call', 't0', 0.2025), ('call', 't1', 0.1025), ('call', 't2')],
@@ -41,7 +44,7 @@ def scenarios(tier):
   # hop's last deadline check and its write)
   pre = []
   for name, params in out:
-    if 'member leaves' in name or 'tag above' in name:
+    if 'member leaves' in name or 'tag above' in name or '70 KB' in name:
       continue
     q = dict(params)
     q['max_preempt'] = 1
